@@ -108,7 +108,7 @@ Qed.
    unknowns that the ORACLE accepts for the provider's declared input schema, the right root, and (provider
    names unique per site) its provider name occurs exactly once among the Opens *)
 Theorem matched_open_oracle_clauses fuel W name d lg p i r c :
-  name <> "" -> unique_provider_sites W name d ->
+  name <> "" -> name <> "<yaml>" -> unique_provider_sites W name d ->
   log_matches (ob_log (run fuel W name d)) lg = true ->
   In (p, i, r, c) (C05.opens lg) ->
   x_has_unknown i = false
@@ -116,13 +116,13 @@ Theorem matched_open_oracle_clauses fuel W name d lg p i r c :
   /\ negb (String.eqb r name) = false
   /\ negb (Nat.eqb (C05.count_str p (map (fun o : string * xval * string * string => fst (fst (fst o))) (C05.opens lg))) 1) = false.
 Proof.
-  intros Hname Hu Hm Hin. rewrite (log_matches_map _ _ Hm) in *. rewrite opens_forget in *.
+  intros Hname Hyaml Hu Hm Hin. rewrite (log_matches_map _ _ Hm) in *. rewrite opens_forget in *.
   rewrite open_tuples_provs. destruct (open_tuples_In _ _ _ _ _ Hin) as (id & Hev).
   rewrite run_log in *. pose proof Hev as Hev'. rewrite <- in_rev in Hev'.
-  destruct (open_inputs_ok W fuel "" name d id p i r c Hev') as (_ & _ & Hr & _ & _ & _ & _ & _ & Hxu & _).
+  destruct (open_inputs_ok W fuel "" name d id p i r c Hev') as (_ & _ & Hr & _ & _ & _ & _ & _ & _ & Hxu & _).
   destruct (open_inputs_oracle_valid W fuel "" name d id p i r c Hev') as (pv & Hp & Hval).
   split; [exact Hxu|]. split; [rewrite Hp, Hval; reflexivity|]. split.
-  - rewrite (Hr Hname). cbn. rewrite String.eqb_refl. reflexivity.
+  - rewrite (Hr Hname Hyaml). cbn. rewrite String.eqb_refl. reflexivity.
   - rewrite open_provs_rev. unfold C05.count_str. rewrite NoDup_count_one; [reflexivity| |].
     + apply NoDup_rev. apply open_provider_names_once, Hu.
     + rewrite <- in_rev. clear -Hev'. induction (log (snd (eval_env W fuel "" name d st0))) as [|e l IH]; [destruct Hev'|].
